@@ -138,7 +138,7 @@ def run_confidence(case):
                                 key_cols=tuple(rng.choice([("ExpMass",), ("filename", "ExpMass"), ("ret_time",)][:]).tolist()) if False else
                                 [("ExpMass",), ("filename", "ExpMass"), ("ret_time", "ExpMass")][case["index"] % 3],
                                 n_files=2, file_index=ci, levels=tuple(case["levels"]), with_rid=False,
-                                pep_pool=int(rng.integers(5, 40)))
+                                pep_pool=int(rng.integers(5, 40)), share_scan=float(rng.choice([0.0, 0.0, 0.6])))
             s = tab["df"]["info0"].values + 0.5 * tab["df"]["noise0"].values
             if ties:
                 s = np.round(s)
